@@ -87,6 +87,9 @@ class PX:
     def explore(self, func: FuncRef, setup):
         """setup() -> (self_obj|None, {param: value}) fresh for every path."""
 
+        if hasattr(self.inline, "root"):
+            self.inline.root = func
+
         def entry():
             self_obj, args = setup()
             return self.call_function(func, self_obj, [], dict(args), None, top=True)
@@ -1523,6 +1526,8 @@ class PX:
             return False
         if n in ("print",):
             return None
+        if n == "bool":
+            return self.truth(args[0], fr, node) if args else False
         if n == "vars" and len(args) == 1:
             if isinstance(args[0], ClassRef):
                 return {k: v for k, v in args[0].attrs.items()}
